@@ -3,3 +3,6 @@ import Asn1cModel.Impl.Integer
 import Asn1cModel.Spec.Twos
 import Asn1cModel.Proofs.Integer
 import Asn1cModel.Props.C16
+import Asn1cModel.Impl.BerTlv
+import Asn1cModel.Spec.Ber
+import Asn1cModel.Proofs.BerTlv
